@@ -71,7 +71,7 @@ func c02RpcRun(r *zsim.Run) {
 				if noTimeout && d >= timeout {
 					d = timeout / 2
 				}
-				pval := o.Intn(4)                // what a panicking handler panics with
+				pval := o.Intn(5)                // what a panicking handler panics with
 				outcome := zsim.Pick(o, 0, 0, 1) // 0 value 1 app error
 				if f.Intn(5) == 4 {
 					outcome = 2 // panic
@@ -97,6 +97,11 @@ func c02RpcRun(r *zsim.Run) {
 							panic(status.Error(codes.Unavailable, "panic-with-a-status-error"))
 						case 3:
 							panic(errors.New("panic-with-an-error"))
+						case 4:
+							// a panic is a panic whatever its value: recover() hands back nil for this one under
+							// the module's language version (go 1.19)
+							var none any
+							panic(none)
 						}
 						panic("rpc-handler-panic")
 					}
